@@ -22,9 +22,10 @@ def cascade_text(casc):
     return ", ".join(c)
 
 
-def mapping(casc, nullable=True):
-    """Declarative classes for the bidirectional one-to-many P.children <-> C.parent with the given cascade on P.children."""
-    key = (cascade_text(casc), nullable)
+def mapping(casc, nullable=True, uni=False):
+    """Declarative classes for the bidirectional one-to-many P.children <-> C.parent with the given cascade on P.children
+    (uni: only P.children, no many-to-one side)."""
+    key = (cascade_text(casc), nullable, uni)
     if key in _MAPPINGS:
         return _MAPPINGS[key]
     import sqlalchemy as sa
@@ -36,7 +37,8 @@ def mapping(casc, nullable=True):
     class P(Base):
         __tablename__ = "p"
         id = sa.Column(sa.Integer, primary_key=True, autoincrement=False)
-        children = orm.relationship("C", back_populates="parent", cascade=key[0], order_by="C.id")
+        children = orm.relationship("C", cascade=key[0], order_by="C.id") if uni else \
+            orm.relationship("C", back_populates="parent", cascade=key[0], order_by="C.id")
 
         def __repr__(self):
             return "p%s" % self.__dict__.get("id")
@@ -46,7 +48,8 @@ def mapping(casc, nullable=True):
         id = sa.Column(sa.Integer, primary_key=True, autoincrement=False)
         pid = sa.Column(sa.Integer, sa.ForeignKey("p.id"), nullable=nullable)
         val = sa.Column(sa.Integer, nullable=False)
-        parent = orm.relationship("P", back_populates="children")
+        if not uni:
+            parent = orm.relationship("P", back_populates="children")
 
         def __repr__(self):
             return "c%s" % self.__dict__.get("id")
@@ -66,7 +69,7 @@ _DML = re.compile(r"^\s*(INSERT INTO|UPDATE|DELETE FROM)\s+(\w+)", re.I)
 
 
 class Real:
-    def __init__(self, workdir, casc, ps, cs, nullable=True, tag="db"):
+    def __init__(self, workdir, casc, ps, cs, nullable=True, tag="db", uni=False):
         import sqlalchemy as sa
         from sqlalchemy import event, orm
         from sqlalchemy.pool import NullPool
@@ -75,7 +78,8 @@ class Real:
         self.path = os.path.join(workdir, "%s.sqlite" % tag)
         if os.path.exists(self.path):
             os.unlink(self.path)
-        self.Base, self.P, self.C = mapping(casc, nullable)
+        self.uni = uni
+        self.Base, self.P, self.C = mapping(casc, nullable, uni)
         self.ps, self.cs = list(ps), list(cs)
         self.engine = sa.create_engine("sqlite:///" + self.path, connect_args={"autocommit": False}, poolclass=NullPool)
 
@@ -138,7 +142,7 @@ class Real:
         """new objects have both relationship attributes initialised (no unloaded attribute ever exists in a walk)"""
         if n[0] == "p":
             return self.P(id=int(n[1:]), children=[])
-        return self.C(id=int(n[1:]), parent=None, val=0)
+        return self.C(id=int(n[1:]), val=0) if self.uni else self.C(id=int(n[1:]), parent=None, val=0)
 
     def fk_enforced(self):
         with self.engine.connect() as conn:
@@ -218,7 +222,8 @@ class Real:
         for p in loadedp.values():
             p.children  # lazy load, ordered by C.id (relationship order_by)
         for c in loadedc.values():
-            c.parent    # from the identity map (all parents are loaded)
+            if not self.uni:
+                c.parent    # from the identity map (all parents are loaded)
         for n in self.ps:
             self.obj[n] = loadedp.get(n) or self.newobj(n)
         for n in self.cs:
@@ -250,7 +255,7 @@ class Real:
                 out["parent"][n] = name(ob.__dict__.get("parent"))
                 v = ob.__dict__.get("pid")
                 out["pid"][n] = "none" if v is None else "p%d" % v
-                h = ins.attrs.parent.history
+                h = ins.attrs.parent.history if not self.uni else ((), (), ())      # (unidirectional mapping: no such attribute)
                 out["val"][n] = "v%s" % ob.__dict__.get("val")
                 hv = ins.attrs.val.history
                 out["hist"][n + ".val"] = [sorted("v%d" % x for x in (part or ()) if x is not None) for part in hv]
@@ -313,8 +318,8 @@ class Driver:
     own connection and the set of DML statements (with parameters) the unit of work emitted; after CommitReload the committed rows seen
     by a second raw connection."""
 
-    def __init__(self, wid, workdir, casc, ps, cs, nullable=True, trace_sink=None):
-        self.real = Real(workdir, casc, ps, cs, nullable=nullable, tag="w%d" % wid)
+    def __init__(self, wid, workdir, casc, ps, cs, nullable=True, trace_sink=None, uni=False):
+        self.real = Real(workdir, casc, ps, cs, nullable=nullable, tag="w%d" % wid, uni=uni)
         self.ps, self.cs = list(ps), list(cs)
         self.trace_sink = trace_sink     # list collecting [pre-rows, dml] per flush for C31
         self.calibrated = self.real.fk_enforced()
@@ -411,7 +416,7 @@ class Driver:
             want = sorted(c for c, v in exp["dbc"].items() if v == p) if p in exp["dbp"] else []
             if got["children"][p] != want:
                 return "drain: reloaded %s.children %r, rows say %r" % (p, got["children"][p], want)
-        for c in self.cs:
+        for c in ([] if r.uni else self.cs):
             if got["parent"][c] != exp["dbc"].get(c, "none"):
                 return "drain: reloaded %s.parent %r, rows say %r" % (c, got["parent"][c], exp["dbc"].get(c, "none"))
         return None
